@@ -33,7 +33,7 @@ def AT_UW(bpg, maxg):
     return ["main.%d:%d" % (i, nb + 1) for i in range(13)] + \
            ["ref_marked_in_group.0:%d" % (nb + 1), "ext2fs_test_block_bitmap_range2.0:%d" % (nb + 1),
             "ext2fs_mark_generic_bmap.0:%d" % (nb + 1), "ext2fs_mark_block_bitmap_range2.0:%d" % (nb + 1),
-            "ext2fs_get_free_blocks2.0:%d" % (nb + 2), "ext2fs_allocate_tables.0:%d" % (maxg + 1),
+            "vf_spec_get_free.0:%d" % (nb + 1), "ext2fs_allocate_tables.0:%d" % (maxg + 1),
             "ext2fs_allocate_group_table.0:5"]
 
 HARNESSES = [
@@ -73,12 +73,19 @@ HARNESSES = [
                "count (below the blocks_per_group-retry threshold), features {sparse_super, sparse_super2 + num_backup_sb, meta_bg, "
                "flex_bg + log_groups_per_flex, resize_inode, gdt_csum}, explicit s_reserved_gdt_blocks, revision: symbolic; "
                "r_blocks_count 0, s_first_meta_bg 0, bigalloc off"),
-    dict(name="alloc_tables", src="alloc_tables.c", extra_src=["lib/ext2fs/alloc.c", "lib/ext2fs/blknum.c"],
-         funcs=["ext2fs_allocate_tables", "ext2fs_allocate_group_table", "flexbg_offset", "ext2fs_get_free_blocks2",
+    dict(name="alloc_tables", src="alloc_tables.c", extra_src=["lib/ext2fs/blknum.c"],
+         funcs=["ext2fs_allocate_tables", "ext2fs_allocate_group_table", "flexbg_offset",
                 "ext2fs_bg_free_blocks_count_set", "ext2fs_free_blocks_count_add"],
          configs=[{"FLEX": 1, "LGPF": 1, "BPG": 16, "MAXG": 3, "_unwindset": AT_UW(16, 3)}],
          unwind=4, backends=["kissat", "default"],
          bound="TBD"),
+    dict(name="get_free", src="get_free.c",
+         funcs=["ext2fs_get_free_blocks2"],
+         configs=[{"NBLK": 10}],
+         unwind=4, unwindset=["main.1:12", "vf_spec_get_free.0:12", "ext2fs_test_block_bitmap_range2.0:12",
+                              "ext2fs_get_free_blocks2.0:24"],
+         backends=["kissat", "default"],
+         bound="filesystem of 2..10 blocks behind block 0, every bitmap content, start/finish in [0, blocks_count], count 0..10"),
     dict(name="itable_zero", src="itable_zero.c", extra_src=["lib/ext2fs/blknum.c"],
          cut_statics={"misc/mke2fs.c": ["write_reserved_inodes"]},
          funcs=["write_inode_tables", "ext2fs_inode_table_loc", "ext2fs_bg_itable_unused", "ext2fs_bg_flags_set"],
